@@ -1,7 +1,9 @@
 (* Driver for the extracted Hashtable model (C09): one case per line
      <variant><hashmode>,<ntables>,<niters>|op;op;...
    prints for every case k one line "k <out> <state>;<out> <state>;..." in the same canonical text
-   as harness/ht_h.cpp.  Cases whose header starts with 'B' (big populations) are not run through
+   as harness/ht_h.cpp.  Cases whose header starts with 'S' run the storage-layer model (HtStore.v: slot
+   array, bucket chains, MAP_TO/MAPPED_FROM, free list, index width, rebuild on growth) and print the
+   whole slot array after every op.  Cases whose header starts with 'B' (big populations) are not run through
    the model: they are decided by the harness's own ideal-map oracle only. *)
 open Ht_model
 
@@ -132,6 +134,88 @@ let same_world0 (a : world0) (b : world0) =
   let norm (x : tab0) = (List.map (fun (k, v) -> (int_of_z k, int_of_z v)) x.pairs, int_of_n x.acap, x.aasort) in
   List.map norm a = List.map norm b
 
+
+(* ------------------------------------------------------------------ storage cases (S header) *)
+
+let hashf (hm : char) (k : z) : n =
+  let ki = int_of_z k in
+  let h = match hm with
+    | '1' -> (ki land 0xFFFFFFFF) mod 3
+    | '2' -> (ki * 2654435761) land 0xFFFFFFFF
+    | _ -> ki land 0xFFFFFFFF in
+  n_of_int h
+
+let idx_s = function None -> "-" | Some i -> string_of_int (int_of_nat i)
+
+(* the model's ComputeTableIndexTypeForTableSize, remembered per size (its unary 65535 is slow to rebuild) *)
+let idx_type_memo : (int, int) Hashtbl.t = Hashtbl.create 16
+let idx_type_of size =
+  match Hashtbl.find_opt idx_type_memo size with
+  | Some t -> t
+  | None -> let t = int_of_nat (idx_type (nat_of_int size)) in Hashtbl.add idx_type_memo size t; t
+
+let dump_store (st : store) =
+  let size = List.length st.slots in
+  let b = Buffer.create 1024 in
+  List.iteri (fun i (s : slot) ->
+    if i > 0 then Buffer.add_char b ',';
+    (match s.s_hash with
+     | None -> Buffer.add_string b "x._._"
+     | Some h -> Buffer.add_string b (Printf.sprintf "%d.%d.%d" (int_of_n h) (int_of_z s.s_key) (int_of_z s.s_val)));
+    Buffer.add_string b (Printf.sprintf ".%s.%s.%d.%d" (idx_s s.s_bprev) (idx_s s.s_bnext) (int_of_nat s.s_mapto) (int_of_nat s.s_mfrom))) st.slots;
+  let body = Buffer.contents b in
+  let shown =
+    if size <= 40 then body
+    else begin
+      let h = ref 0xcbf29ce484222325L in
+      String.iter (fun c -> h := Int64.mul (Int64.logxor !h (Int64.of_int (Char.code c))) 1099511628211L) body;
+      Printf.sprintf "#%016Lx" !h
+    end in
+  Printf.sprintf "S:%d/%d/%d/%s|%s" size (idx_type_of size) (int_of_nat st.nitems) (idx_s st.free_head) shown
+
+let run_store_case (k : int) (head : string) (body : string) =
+  let hp = String.split_on_char ',' head in
+  let h0 = List.nth hp 0 in
+  let hm = if String.length h0 > 1 then h0.[1] else '0' in
+  let req = if List.length hp > 1 then ios (List.nth hp 1) else 0 in
+  let size = ref (max req (int_of_n default_capacity)) in      (* EnsureSize on the still unallocated table *)
+  let run : srun option ref = ref None in
+  let bad = ref None in
+  let buf = Buffer.create 1024 in
+  let ops = List.filter (fun s -> s <> "") (String.split_on_char ';' body) in
+  let ensure_alloc () = match !run with
+    | Some r -> r
+    | None -> let r = { r_st = st_create (nat_of_int !size); r_order = [] } in run := Some r; r in
+  List.iter (fun s ->
+    let out =
+      match String.split_on_char ':' s with
+      | ["sp"; key; v] ->
+          let r = ensure_alloc () in
+          let (r', _) = st_step (hashf hm) r (SPut (zz key, zz v)) in run := Some r'; "s0"
+      | ["sg"; key] ->
+          (match !run with
+           | None -> "none"
+           | Some r -> let (_, o) = st_step (hashf hm) r (SGet (zz key)) in
+                       (match o with Some v -> "v" ^ string_of_int (int_of_z v) | None -> "none"))
+      | ["sr"; key] ->
+          (match !run with
+           | None -> "s1"
+           | Some r -> let (r', o) = st_step (hashf hm) r (SRemove (zz key)) in run := Some r';
+                       (match o with Some _ -> "s0" | None -> "s1"))
+      | ["se"; nn] ->
+          (match !run with
+           | None -> size := max !size (ios nn); "s0"
+           | Some r -> let (r', _) = st_step (hashf hm) r (SGrow (nat_of_int (ios nn))) in run := Some r'; "s0")
+      | _ -> "?" in
+    Buffer.add_string buf out; Buffer.add_char buf ' ';
+    (match !run with
+     | None -> Buffer.add_string buf (Printf.sprintf "S:%d/null" !size)
+     | Some r ->
+         Buffer.add_string buf (dump_store r.r_st));
+    Buffer.add_char buf ';') ops;
+  Printf.printf "%d %s\n" k (Buffer.contents buf);
+  (match !bad with Some why -> Printf.printf "%d ORACLE FAIL storage model: %s\n" k why | None -> ())
+
 let () =
   let lines = Ocommon.read_lines () in
   List.iteri (fun k line ->
@@ -141,6 +225,7 @@ let () =
       let head = String.sub line 0 p in
       let body = String.sub line (p+1) (String.length line - p - 1) in
       if String.length head > 0 && head.[0] = 'B' then Printf.printf "%d big\n" k
+      else if String.length head > 0 && head.[0] = 'S' then run_store_case k head body
       else begin
         let hp = String.split_on_char ',' head in
         let h0 = List.nth hp 0 in
